@@ -185,6 +185,36 @@ def check_setting(part, row, table_by_number):
             part.fail("lookup-reduced-str-raise:%s" % sk, "LATT+SYMM(string) round trip of %s raised %s" % (sk, type(e).__name__), case)
     except Exception as e:
         part.fail("reduce-raise:%s" % sk, "latt/reduced_symmetry_operations of %s raised %r" % (sk, e), case)
+    # instances are independent: whatever a caller does to the operation list (or the operation objects) of one SpaceGroup
+    # object, constructing / looking up the setting again gives the tabulated group
+    try:
+        part.tr()
+        victim = SpaceGroup(n, choice=choice)
+        lst = victim.symmetry_operations
+        lst.reverse()
+        first = lst.pop()
+        try:
+            first.translation += 0.25
+            first.rotation *= -1
+        except Exception:
+            pass
+        if len(lst):
+            try:
+                lst[0].translation[:] = 0.125
+            except Exception:
+                pass
+        again = SpaceGroup(n, choice=choice)
+        acodes = sorted(int(x.integer_code) for x in again.symmetry_operations)
+        if acodes != sorted(codes):
+            part.fail("instance-aliasing:construct:%s" % sk, "after a caller edited the operation list of one SpaceGroup(%d, %r) object, constructing the setting again gives %d operations (%d tabulated), %d of them not in the table"
+                      % (n, choice, len(acodes), len(codes), len(set(acodes) - set(codes))), case)
+        found = SpaceGroup.from_symmetry_operations([SymmetryOperation.from_integer_code(c) for c in codes])
+        fcodes = sorted(int(x.integer_code) for x in found.symmetry_operations)
+        if found.international_tables_number != n or fcodes != sorted(codes):
+            part.fail("instance-aliasing:lookup:%s" % sk, "after a caller edited the operation list of one SpaceGroup(%d, %r) object, looking the setting up from its full operation list gives %d:%s with %d operations"
+                      % (n, choice, found.international_tables_number, found.choice, len(fcodes)), case)
+    except Exception as e:
+        part.fail("instance-aliasing:raise:%s" % sk, "constructing %s again after editing another instance raised %r" % (sk, e), case)
     # lookup from a genuine SHELX description produced by the REFERENCE (not by the library's own latt / reduction):
     # LATT names the true centring (incl. B = 6, which the library's table never reports), its sign the presence of -1 at the
     # origin, SYMM is one representative per coset - in table order and reversed
